@@ -810,3 +810,23 @@ fn eval_operand<'a>(
         Operand::Value(v) => v,
     }
 }
+
+/// Verification-only access to the private parts of [`Memory`]
+#[cfg(nlnetlabs_roto_verif)]
+impl Memory {
+    pub fn verif_offset_by(&mut self, p: usize, offset: usize) -> usize {
+        self.offset_by(p, offset)
+    }
+
+    pub fn verif_push_frame(&mut self) {
+        self.push_frame(0, None)
+    }
+
+    pub fn verif_pop_frame(&mut self) -> bool {
+        self.pop_frame().is_some()
+    }
+
+    pub fn verif_copy(&mut self, to: usize, from: usize, size: usize) {
+        self.copy(to, from, size)
+    }
+}
